@@ -42,8 +42,13 @@ func Object(attrTypes map[string]Type) Type {
 // access it, since ownership is transferred to this library.
 func ObjectWithOptionalAttrs(attrTypes map[string]Type, optional []string) Type {
 	attrTypesNorm := make(map[string]Type, len(attrTypes))
+	var chosen map[string]string
 	for k, v := range attrTypes {
-		attrTypesNorm[NormalizeString(k)] = v
+		normKey := NormalizeString(k)
+		if shadowedKey(attrTypes, k, normKey, &chosen) {
+			continue
+		}
+		attrTypesNorm[normKey] = v
 	}
 
 	var optionalSet map[string]struct{}
